@@ -7,26 +7,6 @@ namespace RsslVerif.Lemmas.ConstEval
 open RsslVerif.Gen.EvalTable RsslVerif.Model.ConstEval
 open RsslVerif.Spec.HlslConst (bv sInt uInt fitsLit lit?)
 
-def argsLen : Args → Nat
-  | .nil => 0
-  | .cons _ r => argsLen r + 1
-
-mutual
-/-- well-formed expression: every constant is in range (and enums are not nested), every operator node
-    has the number of operands its arm of `evaluate_operator` looks at -/
-def wfE : Expr → Bool
-  | .lit c => wf c
-  | .var v | .global v => (match v with | some c => wf c | none => true)
-  | .enumValue _ v => plain v
-  | .cast _ e => wfE e
-  | .sizeOf t => (match t with | .enum u => (scalarSize u).isSome | _ => true)
-  | .op o args => arityOk o (argsLen args) && wfArgs args
-  | .other => true
-def wfArgs : Args → Bool
-  | .nil => true
-  | .cons e r => wfE e && wfArgs r
-end
-
 theorem sizeOf_agrees {t : SizeTy} {v : Constant} (h : evalSizeOf t = .ok v) : S.sizeOfTy t = some v ∧ wf v = true := by
   cases t with
   | scalar s => cases s <;> simp [evalSizeOf, scalarSize] at h <;> (subst h; simp [S.sizeOfTy, S.sizeOfScalar, wf, IntTy.inRange, u32_lo, u32_hi])
